@@ -313,6 +313,9 @@ def check_pad_constructors(ctx, facts):
                     continue
                 if f[0] == "true" and f[1][0] == "call" and f[1][1].endswith("not_any") and f"('const', {bits})" in str(f[1]):
                     check = True
+                # `.any()` false is the same test (bitvec: any() = count_ones() > 0, not_any() = its negation)
+                if f[0] == "false" and f[1][0] == "call" and re.search(r"::any$", f[1][1]) and "bitvec" in f[1][1] and f"('const', {bits})" in str(f[1]):
+                    check = True
                 if f[0] in ("Le", "Lt") and f[1][0] == "call" and f[1][1].endswith("::len") and f[2] is not None:
                     k = flow.fold(_unwrap_conv(f[2]))
                     if k[0] == "const" and isinstance(k[1], int):
